@@ -20,10 +20,12 @@
    the corollary for the three files.  Two explicit hypotheses remain, both decidable:
    * [no_st m] — the mesh is not a point cloud carrying TexCoord.  Such a cloud gets per-vertex properties s, t
      (fix ad4b3e5) whose reader ply.ReadMesh places BEFORE the splat groups, so the reader's list is in its own order.
-     [ply_roundtrip_points_st] gives the whole-file round trip for that class through readers placed anywhere in the
-     list ([readers_placed]: a decidable statement about the concrete mesh, computed per case by Check/C04.v), with the
-     attributes in the reader's order (the same name -> data map as [expected], in another order).  The one lemma not
-     proved in general: `build_readers (P ++ T1 ++ [s;t] ++ T2) = Ok (breaders PL)` for the insertion placement PL.
+     That class has its own whole-property theorem [ply_write_read_property_points_st] (round 4: the reader
+     construction lemma is now proved in general, [ply_readers_placed_points_st]): same statement, with the attributes
+     as a permutation of [expected]'s (attribute order is no observable of a mesh) and the extra decidable hypothesis
+     [no_user_st m] — no user attribute is itself called "s" or "t" (the file would carry two properties of that name and
+     the reader takes the last: [ply_points_st_duplicate_refuted]).  With WriteUnspecifiedProperties off the table never
+     writes s/t: [ply_roundtrip_points_nounspec] needs neither hypothesis.
    * ASCII only: the configuration writes at least one vertex property when n >= 1 (otherwise known finding
      ply:ascii-vertex-without-properties: [ascii_ok] cannot hold, the encodings really disagree).
    * User-named attributes: [wf_mesh] requires their PLY property names (name, or name_k for vectors) to be distinct
@@ -36,8 +38,8 @@
    Custom writer tables: the same statement holds for ANY table under decidable side conditions
    ([ply_roundtrip_any_table]: the reader builds the laid-out readers, attribute keys distinct, values storable);
    the 8-bit scalar case is refuted ([ascii_uchar_scalar_refuted], known finding ply:ascii-uchar-scalar-raw). *)
-From PF Require Import Base.Bytes Formats.PlyRead Formats.PlyWrite Formats.PlyWriteProofs.
-From Coq Require Import String.
+From PF Require Import Base.Bytes Formats.PlyRead Formats.PlyWrite Formats.PlyWriteProofs Formats.PlyWritePlaced.
+From Coq Require Import String Permutation.
 Open Scope list_scope.
 Open Scope N_scope.
 
@@ -344,6 +346,91 @@ Theorem ply_roundtrip_points_st : forall o f m PL, o_writers o = default_writers
     read_mesh file = Ok {| m_topo := TPoint; m_idx := iota (w_n m); m_attrs := map gattr (map fst PL) |}.
 Proof. exact ply_points_placed. Qed.
 Print Assumptions ply_roundtrip_points_st.
+
+(* ---- round 4: the placement hypothesis of [ply_roundtrip_points_st] discharged ---- *)
+(* ply.ReadMesh's reader construction on the property list ply.Write emits for a point cloud with TexCoord: the
+   reader list L is the same for ASCII and binary (Position/Normal/Color, TexCoord, FDC/Opacity/Scale/Rotation, then the
+   user scalars in file order: a permutation of the file order), every reader sits at its real byte offset / column *)
+Theorem ply_readers_placed_points_st : forall o m,
+  o_writers o = default_writers -> wf_mesh m = true -> w_topo m = TPoint -> has_tex m = true -> o_unspec o = true ->
+  no_user_st m = true ->
+  exists L, keys_ok [] L = true /\ Permutation L (rview o m) /\
+            forall bin, exists PL, map fst PL = L /\ readers_placed bin (rview o m) PL.
+Proof. exact readers_placed_points_st_uniform. Qed.
+Print Assumptions ply_readers_placed_points_st.
+
+(* THE PROPERTY for point clouds with per-vertex texture coordinates (the class [no_st] excludes above): three files,
+   ONE mesh r' read back from all three, topology / indices of [expected], the same attributes, headers describe bodies *)
+Theorem ply_write_read_property_points_st : forall o m,
+  o_writers o = default_writers -> wf_mesh m = true -> w_topo m = TPoint -> has_tex m = true -> o_unspec o = true ->
+  no_user_st m = true ->
+  let gs := map (group_of m) (effective_writers o m) in
+  exists fa fl fb r r',
+    write o ASCII m = Ok fa /\ write o BinLE m = Ok fl /\ write o BinBE m = Ok fb /\
+    expected o m = Ok r /\ read_mesh fa = Ok r' /\ read_mesh fl = Ok r' /\ read_mesh fb = Ok r' /\
+    m_topo r' = m_topo r /\ m_idx r' = m_idx r /\ Permutation (m_attrs r') (m_attrs r) /\
+    described ASCII gs m fa /\ described BinLE gs m fl /\ described BinBE gs m fb.
+Proof. exact ply_property_points_st. Qed.
+Print Assumptions ply_write_read_property_points_st.
+
+(* per encoding *)
+Theorem ply_roundtrip_points_st_whole : forall o f m,
+  o_writers o = default_writers -> wf_mesh m = true -> w_topo m = TPoint -> has_tex m = true -> o_unspec o = true ->
+  no_user_st m = true ->
+  exists file r r', write o f m = Ok file /\ expected o m = Ok r /\ read_mesh file = Ok r' /\
+     m_topo r' = m_topo r /\ m_idx r' = m_idx r /\ Permutation (m_attrs r') (m_attrs r).
+Proof. exact ply_points_st_roundtrip. Qed.
+Print Assumptions ply_roundtrip_points_st_whole.
+
+(* WriteUnspecifiedProperties off: every well-formed point cloud, with or without TexCoord (no [no_st]) *)
+Theorem ply_roundtrip_points_nounspec : forall o f m,
+  o_writers o = default_writers -> wf_mesh m = true -> w_topo m = TPoint -> o_unspec o = false ->
+  (f = ASCII -> w_n m = 0%nat \/ vertex_props (rview o m) <> []) ->
+  exists file r, write o f m = Ok file /\ expected o m = Ok r /\ read_mesh file = Ok r.
+Proof. exact ply_points_tex_nounspec. Qed.
+Print Assumptions ply_roundtrip_points_nounspec.
+
+(* the hypothesis [no_user_st] is needed: a well-formed point cloud with TexCoord and a user scalar "s" is written with two
+   properties named s; ply.ReadMesh's model loses the user attribute and fills TexCoord's first column from it *)
+Theorem ply_points_st_duplicate_refuted :
+  exists m, wf_mesh m = true /\ w_topo m = TPoint /\ has_tex m = true /\ no_user_st m = false /\
+    forall f, exists file r r', write default_opts f m = Ok file /\ expected default_opts m = Ok r /\ read_mesh file = Ok r' /\
+      List.length (m_attrs r') <> List.length (m_attrs r).
+Proof.
+  set (m := {| w_topo := TPoint; w_idx := [0; 1]%nat; w_n := 2%nat;
+            w_attrs := [ {| wa_dim := 3; wa_name := "Position"; wa_rows := [[1065353216; 0; 0]; [0; 1065353216; 0]] |};
+                         {| wa_dim := 2; wa_name := "TexCoord"; wa_rows := [[0; 1065353216]; [1065353216; 0]] |};
+                         {| wa_dim := 1; wa_name := "s"; wa_rows := [[1056964608]; [1048576000]] |} ] |}).
+  exists m.
+  split; [vm_compute; reflexivity|]. split; [reflexivity|]. split; [vm_compute; reflexivity|]. split; [vm_compute; reflexivity|].
+  intros f.
+  assert (H : match write default_opts f m, expected default_opts m with
+              | Ok file, Ok r => match read_mesh file with
+                                 | Ok r' => negb (Nat.eqb (List.length (m_attrs r')) (List.length (m_attrs r)))
+                                 | Err _ => false end
+              | _, _ => false end = true) by (destruct f; vm_compute; reflexivity).
+  destruct (write default_opts f m) as [file|] eqn:W; [|discriminate H].
+  destruct (expected default_opts m) as [r|] eqn:X; [|discriminate H].
+  destruct (read_mesh file) as [r'|] eqn:R; [|discriminate H].
+  exists file, r, r'. split; [reflexivity|]. split; [reflexivity|]. split; [exact R|].
+  intros E. rewrite E, Nat.eqb_refl in H. discriminate H.
+Qed.
+Print Assumptions ply_points_st_duplicate_refuted.
+
+(* non-vacuity of the hypotheses of [ply_write_read_property_points_st] *)
+Example ply_points_st_example :
+  let m := {| w_topo := TPoint; w_idx := [0; 1]%nat; w_n := 2%nat;
+              w_attrs := [ {| wa_dim := 3; wa_name := "Position"; wa_rows := [[1065353216; 0; 0]; [0; 1065353216; 0]] |};
+                           {| wa_dim := 3; wa_name := "Scale"; wa_rows := [[1065353216; 1065353216; 0]; [0; 1065353216; 1056964608]] |};
+                           {| wa_dim := 2; wa_name := "Foo"; wa_rows := [[1; 2]; [3; 4]] |};
+                           {| wa_dim := 2; wa_name := "TexCoord"; wa_rows := [[0; 1065353216]; [1065353216; 0]] |};
+                           {| wa_dim := 2; wa_name := "bar"; wa_rows := [[5; 6]; [7; 8]] |};
+                           {| wa_dim := 1; wa_name := "t2"; wa_rows := [[1056964608]; [1048576000]] |} ] |} in
+  wf_mesh m = true /\ has_tex m = true /\ no_user_st m = true /\
+  forallb (fun f => match write default_opts f m, expected default_opts m with
+                    | Ok file, Ok r => match read_mesh file with Ok r' => mesh_eqb r r' | Err _ => false end
+                    | _, _ => false end) [ASCII; BinLE; BinBE] = true.
+Proof. vm_compute. repeat split; reflexivity. Qed.
 
 (* the written file in closed form, for ply.Write's table on every well-formed mesh *)
 Theorem ply_write_closed_form : forall o f m, o_writers o = default_writers -> wf_mesh m = true ->
